@@ -972,3 +972,190 @@ Proof.
     now apply mmap_on_reader.
   - now apply rr_relocated_id.
 Qed.
+
+Lemma rrun_cons dbg be root rc op ops :
+  rrun dbg be root rc (op :: ops) =
+  (fst (rrun dbg be root (fst (rstep dbg be root rc op)) ops),
+   snd (rstep dbg be root rc op) :: snd (rrun dbg be root (fst (rstep dbg be root rc op)) ops)).
+Proof.
+  unfold rrun, rstep. cbn [grun].
+  destruct (gstep (rr_impl (er_impl dbg) rel_id rel_id) be root rc op) as [c1 o]. cbn [fst snd].
+  destruct (grun (rr_impl (er_impl dbg) rel_id rel_id) be root c1 ops) as [c2 os]. reflexivity.
+Qed.
+
+Lemma lift_val_set rc c v : lift_val (set_reader rc c) v = lift_val rc v.
+Proof. destruct v; reflexivity. Qed.
+
+Lemma RInv_step dbg be root rc op :
+  RInv rc -> RInv (set_reader rc (fst (step dbg be root (rreader rc) op))).
+Proof.
+  intros (HI & HW & HS). split; [exact HI|]. split; [exact HW|]. cbn [rsection rreader set_reader].
+  eapply Sub_trans; [exact HS | apply step_Sub].
+Qed.
+
+Lemma reloc_identity_histories_lemma dbg be root ops : forall rc,
+  RInv rc ->
+  rrun dbg be root rc ops =
+  (set_reader rc (fst (run dbg be (rreader root) (rreader rc) ops)),
+   map (rmap (lift_val rc)) (snd (run dbg be (rreader root) (rreader rc) ops))).
+Proof.
+  induction ops as [|op ops IH]; intros rc HR.
+  - cbn. now rewrite set_reader_id.
+  - rewrite rrun_cons, run_cons, (reloc_identity_lemma dbg be root rc op HR).
+    unfold lift_out. cbn [fst snd].
+    rewrite (IH _ (RInv_step dbg be (rreader root) rc op HR)).
+    cbn [fst snd rreader set_reader map]. reflexivity.
+Qed.
+
+Lemma RInv_new b a : a + N.of_nat (length b) < two64 -> RInv (rr_new (new b a)).
+Proof.
+  intros H. split; [apply new_Inv|]. split; [exact H | apply Sub_refl].
+Qed.
+
+(* ------------------------------------------------------------------ EndianSlice = EndianReader, except `empty` *)
+Definition abs_val (v : oval cur) : oval srd :=
+  match v with
+  | VUnit => VUnit | VNum n => VNum n | VInt z => VInt z | VBool b => VBool b
+  | VBytes bs => VBytes bs | VRd r => VRd (abs r) | VOpt o => VOpt o
+  end.
+Definition abs_out (x : cur * res (oval cur)) : srd * res (oval srd) :=
+  (abs (fst x), rmap abs_val (snd x)).
+
+Lemma slen_abs c : Inv c -> slen (abs c) = len c.
+Proof. intros H. unfold slen, abs; cbn [swin]. now apply bytes_length. Qed.
+
+Lemma abs_adv c n :
+  n <= len c -> abs (adv c n) = mkS (saddr (abs c) + n) (skipn (N.to_nat n) (swin (abs c))).
+Proof.
+  intros H. unfold abs at 1. rewrite bytes_adv by exact H. cbn [abs saddr swin]. f_equal.
+  unfold ptr, adv, with_win; cbn. lia.
+Qed.
+Lemma abs_win c n :
+  n <= len c -> abs (with_win c (off c) n) = mkS (saddr (abs c)) (firstn (N.to_nat n) (swin (abs c))).
+Proof.
+  intros H. unfold abs at 1. rewrite bytes_win by exact H. reflexivity.
+Qed.
+
+Lemma sl_read_slice_abs c n :
+  Inv c ->
+  sl_read_slice (abs c) n =
+  if len c <? n then Err EUnexpectedEof else Ok (view_of (buf c) (off c) n, abs (adv c n)).
+Proof.
+  intros HI. unfold sl_read_slice. rewrite slen_abs by exact HI.
+  destruct (len c <? n) eqn:E; [reflexivity|].
+  rewrite abs_adv by lia. f_equal. f_equal. cbn [abs swin]. unfold bytes. apply firstn_view. lia.
+Qed.
+Lemma sl_skip_abs c n :
+  Inv c ->
+  sl_skip (abs c) n = if len c <? n then Err EUnexpectedEof else Ok (tt, abs (adv c n)).
+Proof.
+  intros HI. unfold sl_skip. rewrite slen_abs by exact HI.
+  destruct (len c <? n) eqn:E; [reflexivity|]. now rewrite abs_adv by lia.
+Qed.
+Lemma sl_truncate_abs c n :
+  Inv c ->
+  sl_truncate (abs c) n =
+  if len c <? n then Err EUnexpectedEof else Ok (tt, abs (with_win c (off c) n)).
+Proof.
+  intros HI. unfold sl_truncate. rewrite slen_abs by exact HI.
+  destruct (len c <? n) eqn:E; [reflexivity|]. now rewrite abs_win by lia.
+Qed.
+Lemma sl_split_abs c n :
+  Inv c ->
+  sl_split (abs c) n =
+  if len c <? n then Err EUnexpectedEof else Ok (abs (with_win c (off c) n), abs (adv c n)).
+Proof.
+  intros HI. unfold sl_split. rewrite sl_read_slice_abs by exact HI.
+  destruct (len c <? n) eqn:E; [reflexivity|]. cbn [bind].
+  rewrite abs_win by lia. f_equal. f_equal. f_equal. cbn [abs swin]. unfold bytes.
+  symmetry. apply firstn_view. lia.
+Qed.
+
+Lemma sl_read_un_eq dbg dang be c w (f : N -> oval srd) (g : N -> oval cur) :
+  Inv c -> (forall v, f v = abs_val (g v)) ->
+  mmap f (g_read_un (sl_req dbg dang) w be) (abs c) = abs_out (spec_read_un be c w g).
+Proof.
+  intros HI Hf. unfold mmap, g_read_un, mbind, mret, spec_read_un, abs_out.
+  cbn [q_read_slice sl_req]. unfold mprim. rewrite sl_read_slice_abs by exact HI.
+  destruct (len c <? N.of_nat w); cbn [fst snd rmap bind]; [reflexivity|].
+  now rewrite Hf.
+Qed.
+
+Lemma sl_read_in_eq dbg dang be c w :
+  Inv c ->
+  mmap VInt (g_read_in (sl_req dbg dang) w be) (abs c) =
+  abs_out (spec_read_un be c w (fun v => VInt (to_signed (8 * N.of_nat w) v))).
+Proof.
+  intros HI. unfold mmap, g_read_in, g_read_un, mbind, mret, spec_read_un, abs_out.
+  cbn [q_read_slice sl_req]. unfold mprim. rewrite sl_read_slice_abs by exact HI.
+  destruct (len c <? N.of_nat w); reflexivity.
+Qed.
+
+Lemma abs_pure {A} c (r : res A) (f : A -> oval srd) (g : A -> oval cur) :
+  (forall a, f a = abs_val (g a)) -> (abs c, rmap f r) = abs_out (c, rmap g r).
+Proof.
+  intros H. unfold abs_out. cbn [fst snd]. f_equal. destruct r; cbn; try reflexivity. now rewrite H.
+Qed.
+
+Lemma sl_read_cstr_eq dbg dang c :
+  Inv c ->
+  mmap VRd (g_read_cstr (sl_req dbg dang)) (abs c) =
+  abs_out (spec_step dbg false c c CReadCstr).
+Proof.
+  intros HI. unfold mmap, g_read_cstr, mbind, mret, mget, abs_out.
+  cbn [q_find q_split q_skip sl_req spec_step]. unfold mprim, sl_find. cbn [abs swin].
+  destruct (position x00 (bytes c)) as [i|] eqn:P; cbn [fst snd rmap bind]; [|reflexivity].
+  pose proof (position_lt _ _ _ P) as Hlt. rewrite (bytes_length c HI) in Hlt.
+  change (mkS (ptr c) (bytes c)) with (abs c).
+  rewrite sl_split_abs by exact HI. assert (E1 : (len c <? i) = false) by lia. rewrite E1.
+  assert (HIa : Inv (adv c i)) by (eapply Sub_Inv; [exact HI | apply adv_Sub; lia]).
+  rewrite sl_skip_abs by exact HIa.
+  assert (E2 : (len (adv c i) <? 1) = false) by (cbn; lia). rewrite E2.
+  rewrite adv_adv by lia. reflexivity.
+Qed.
+
+Lemma kinds_agree_lemma dbg be dang root c op :
+  Inv c -> Inv root -> (op = CEmpty -> dang = ptr c) ->
+  sstep dbg be dang (abs root) (abs c) op = abs_out (step dbg be root c op).
+Proof.
+  intros HI HIr Hd. rewrite step_spec. unfold sstep, gstep, sl_impl, default_impl.
+  cbn [i_req i_read_address i_read_offset i_read_sized_offset].
+  destruct op; cbn [spec_step].
+  - unfold mmap, mbind, mret, abs_out. cbn [q_read_slice sl_req]. unfold mprim.
+    rewrite sl_read_slice_abs by exact HI. destruct (len c <? n); reflexivity.
+  - now apply sl_read_un_eq.
+  - now apply sl_read_in_eq.
+  - unfold g_read_uint. destruct (Nat.ltb 8 n); [reflexivity | now apply sl_read_un_eq].
+  - unfold mmap, mbind, mret, abs_out. cbn [q_skip sl_req]. unfold mprim.
+    rewrite sl_skip_abs by exact HI. destruct (len c <? n); reflexivity.
+  - unfold mmap, mbind, mret, abs_out. cbn [q_split sl_req]. unfold mprim.
+    rewrite sl_split_abs by exact HI. destruct (len c <? n); reflexivity.
+  - unfold mmap, mbind, mret, abs_out. cbn [q_truncate sl_req]. unfold mprim.
+    rewrite sl_truncate_abs by exact HI. destruct (len c <? n); reflexivity.
+  - (* empty: agrees exactly when the dangling address happens to be the reader's position *)
+    unfold mmap, mbind, mret, abs_out. cbn [q_empty sl_req]. unfold mprim, sl_empty. cbn [fst snd rmap bind].
+    rewrite (Hd eq_refl). reflexivity.
+  - cbn [q_find sl_req]. unfold sl_find. cbn [abs swin]. change (mkS (ptr c) (bytes c)) with (abs c).
+    destruct (position b (bytes c)); reflexivity.
+  - cbn [q_len sl_req]. rewrite slen_abs by exact HI. reflexivity.
+  - unfold g_is_empty. cbn [q_len sl_req]. rewrite slen_abs by exact HI. reflexivity.
+  - reflexivity.
+  - cbn [q_lookup_offset_id sl_req]. unfold sl_lookup_offset_id. rewrite slen_abs by exact HI.
+    now apply abs_pure.
+  - cbn [q_lookup_offset_id q_offset_id sl_req]. unfold sl_lookup_offset_id. rewrite slen_abs by exact HIr.
+    now apply abs_pure.
+  - cbn [q_offset_from sl_req]. unfold sl_offset_from. rewrite !slen_abs by assumption.
+    now apply abs_pure.
+  - reflexivity.
+  - cbn [q_to_string sl_req]. unfold sl_to_string. cbn [abs swin]. change (mkS (ptr c) (bytes c)) with (abs c).
+    destruct (utf8_valid (bytes c)); reflexivity.
+  - rewrite (sl_read_cstr_eq dbg dang c HI). reflexivity.
+  - unfold g_read_address.
+    destruct (size =? 1); [now apply sl_read_un_eq|]. destruct (size =? 2); [now apply sl_read_un_eq|].
+    destruct (size =? 4); [now apply sl_read_un_eq|]. destruct (size =? 8); [now apply sl_read_un_eq|]. reflexivity.
+  - unfold g_read_word. destruct fmt64; now apply sl_read_un_eq.
+  - unfold g_read_word. destruct fmt64; now apply sl_read_un_eq.
+  - unfold g_read_sized_offset.
+    destruct (size =? 1); [now apply sl_read_un_eq|]. destruct (size =? 2); [now apply sl_read_un_eq|].
+    destruct (size =? 4); [now apply sl_read_un_eq|]. destruct (size =? 8); [now apply sl_read_un_eq|]. reflexivity.
+Qed.
